@@ -1,9 +1,9 @@
 """C03 — Stored expressions render back to equivalent Python code.
 
 Workload: grammar-directed random expression trees over every node class of ``_node_map`` (``vf.gen.exprs``), text
-from ``ast.unparse``, each expression embedded in ten storage sites of a generated module (attribute value /
-annotation at module and class level, parameter default / annotation, return annotation, function and class
-decorator, base class) which is visited by the real visitor; a second workload of typing-shaped annotations with
+from ``ast.unparse``, each expression embedded in twelve storage sites of a generated module (attribute value /
+annotation at module and class level, instance attribute value, function / method parameter default, parameter and
+return annotation, function and class decorator, base class) which is visited by the real visitor; a second workload of typing-shaped annotations with
 quoted parts, ``Literal[...]`` in every spelling, with / without ``from __future__ import annotations``.
 
 Oracles (CPython's parser is the reference):
@@ -14,6 +14,13 @@ Oracles (CPython's parser is the reference):
     iteration reconstructs the same text; every ``Load`` name of the (expected) tree is present as an ``ExprName``
     with a scope/parent to resolve in;
  3. the string rule is decided by (1) on the substituted tree, per (future?, inside Literal?, site) cell.
+
+Views of one tree: every stored expression is judged a second time through the other documented ways of obtaining and
+rendering it — decoded alone from its JSON (base / full encoder, twice in a row, from ``as_dict()``), fetched from the
+module decoded from ``module.as_json()`` (base dump, full dump, dump of the decoded module), ``modernize()``, and its
+``path`` / ``canonical_path`` (which must produce text).  The same CPython oracle decides: a view whose text equals the
+fresh text has the fresh text's parse (its iteration views and name elements are still checked; decoded names need a
+scope when they sit in a decoded module); any other text is parsed and compared with the source tree.
 
 Domains: ``D_clean`` (no classifier consulted: any refutation is a violation) and ``D_hostile`` (refutations go through
 mechanism classifiers: the *minimal failing subtree* is located by re-rendering sub-trees alone, the mechanism's
@@ -36,14 +43,16 @@ PROP = "C03"
 LEVEL = "exploration"
 ANCHORS = ["expressions.py", "agents/nodes/parameters.py"]
 RULE = ("random expression trees (depth <=3 quick / <=5 thorough) over all 28 node classes of _node_map, all 13 binary / 4 unary / "
-        "2 boolean / 10 comparison operators, every operand position; text from ast.unparse; each expression stored in 10 sites "
+        "2 boolean / 10 comparison operators, every operand position; text from ast.unparse; each expression stored in 12 sites "
         "of a generated module with and without 'from __future__ import annotations'; plus typing-shaped annotations with quoted "
         "parts and Literal[...] in 7 spellings. distinct = (source text, future flag); non-trivial = tree depth >= 2 and >= 2 "
         "distinct node classes")
 LEVEL_TEXT = ("Every generated expression is visited by the real visitor at every storage site; str(), flat and recursive iteration "
               "of the stored Expr are compared with CPython's parse of the source text (tree equality up to parentheses and literal "
               "spelling), name elements against the Load names of the tree, string annotations against the (future?, Literal?, site) "
-              "rule. D_clean (no grouping ever needed, no known trigger) admits no classifier; in D_hostile a refutation must be "
+              "rule. The same judgement is repeated on every other view of the stored expression: decoded from its own JSON, "
+              "from the base / full / repeated JSON dump of the visited module, as_dict(), modernize(), path / canonical_path. "
+              "D_clean (no grouping ever needed, no known trigger) admits no classifier; in D_hostile a refutation must be "
               "explained by a listed mechanism whose repair makes the minimal failing subtree render correctly.")
 LEVEL_NOTE = ("trusted: ast.parse / ast.unparse of CPython 3.12 (PEP 701 f-string grammar); rendered text is parsed as the right-hand "
               "side of an assignment (so a bare 'yield x' or 'a, b' counts as valid), a starred base as a call argument; depth-bounded "
@@ -52,18 +61,27 @@ TECHNIQUE = "runtime monitoring: differential oracle (CPython parser) on the rea
 REQUIRED_COUNTERS = ["parse_back_equal", "flat_iteration_checked", "recursive_iteration_checked", "names_checked",
                      "clean_domain_expressions", "hostile_domain_expressions", "string_parsed_as_code_checked",
                      "string_literal_under_future_checked", "string_literal_inside_Literal_checked",
-                     "string_literal_non_annotation_site_checked"]
+                     "string_literal_non_annotation_site_checked",
+                     "view_checked[expr_json]", "view_checked[expr_json_full]", "view_checked[expr_json_twice]",
+                     "view_checked[as_dict_json]", "view_checked[modernize]", "view_checked[module_json_base]",
+                     "view_checked[module_json_full]", "view_checked[module_json_twice]", "path_views_checked", "module_reloads"]
 EXHAUSTIVE = {"quick": False, "thorough": False}
 ASSUMPTIONS = [
     "strings inside a quoted annotation (nested quoting), strings in lambda defaults, in f-string replacement fields and in the "
     "subscripted object (left of '[') are not 'string annotations': such cases are only generated with the future import on",
     "'valid Python' = accepted by CPython 3.12's parser as the right-hand side of an assignment",
+    "an expression decoded on its own (outside an object tree) has no scope to give to its names: name elements are only "
+    "required to be present there; in a decoded module they must have a scope like in the visited one",
+    "modernize() may respell typing aliases (Union, Optional, List, ...): with such a name in the expression only validity of the "
+    "modernised text is required, otherwise tree equality",
+    "the expression-only views are judged once per distinct (text, expected tree, class) of a case, the module views at every site; "
+    "all cases go through the views in the quick tier, every fourth case in the thorough tier",
     "D_clean restrictions: " + "; ".join(CLEAN_EXCLUDES),
 ]
-SHARD_TIMEOUT = {"quick": 600, "thorough": 3600}
+SHARD_TIMEOUT = {"quick": 900, "thorough": 10800}   # safety nets only (the machine may be heavily shared)
 
 SITES = ["value", "annotation", "default", "param_annotation", "returns", "decorator", "class_decorator", "base",
-         "class_value", "class_annotation"]
+         "class_value", "class_annotation", "method_default", "instance_value"]
 ANN_SITES = {"annotation", "param_annotation", "returns", "class_annotation"}
 LITERALS = set(LITERAL_SPELLINGS)
 LOWPREC = (ast.BinOp, ast.UnaryOp, ast.BoolOp, ast.Compare, ast.IfExp, ast.Lambda, ast.Yield, ast.YieldFrom, ast.GeneratorExp)
@@ -312,8 +330,11 @@ def render_pieces(stored):  # noqa: ANN001, ANN201
     return text, None, names
 
 
-def judge(expected: ast.expr, stored, rec=None, memo: bool = False):  # noqa: ANN001, ANN201
-    """None when the stored expression satisfies oracles 1+2 for ``expected``; else (kind, what, observed, expected)."""
+def judge(expected: ast.expr, stored, rec=None, memo: bool = False, need_parent: bool = True):  # noqa: ANN001, ANN201
+    """None when the stored expression satisfies oracles 1+2 for ``expected``; else (kind, what, observed, expected).
+
+    ``need_parent``: every name element must have a scope to resolve in (false for an expression decoded on its own, outside
+    any object tree: nothing can attach a scope there)."""
     text, problem, names = render_pieces(stored)
     if problem:
         return ("iteration",) + problem
@@ -334,13 +355,23 @@ def judge(expected: ast.expr, stored, rec=None, memo: bool = False):  # noqa: AN
     if rec is not None:
         rec.count("parse_back_equal")
     if not isinstance(stored, str):
-        want = Counter(n.id for n in ast.walk(expected) if isinstance(n, ast.Name) and isinstance(n.ctx, ast.Load))
-        have = Counter(n.name for n in names if n.parent is not None)
-        missing = want - have
-        if missing:
-            return ("names", "a referenced (Load) name is not present as a resolvable ExprName element", dict(have), dict(want))
+        problem = names_problem(expected, names, need_parent, memo)
+        if problem:
+            return problem
         if rec is not None:
             rec.count("names_checked")
+    return None
+
+
+def names_problem(expected: ast.expr, names, need_parent: bool, memo: bool = False):  # noqa: ANN001, ANN201
+    want = getattr(expected, "_vf_names", None) if memo else None
+    if want is None:
+        want = Counter(n.id for n in ast.walk(expected) if isinstance(n, ast.Name) and isinstance(n.ctx, ast.Load))
+        if memo:  # only for trees that are never mutated
+            expected._vf_names = want  # type: ignore[attr-defined]
+    have = Counter(n.name for n in names if n.parent is not None or not need_parent)
+    if want - have:
+        return ("names", "a referenced (Load) name is not present as a resolvable ExprName element", dict(have), dict(want))
     return None
 
 
@@ -397,6 +428,174 @@ def standalone(node: ast.AST, rec=None, as_root: bool = False):  # noqa: ANN001,
     if stored is None:
         return ("none", "nothing built", None, _unparse(tree)), None
     return judge(tree, stored), str(stored)
+
+
+# ---------------------------------------------------------------------------------------------------------------
+# views of one stored expression: every expression the check stores is also looked at through the other documented ways of
+# obtaining / rendering it.  All of them are judged by the same CPython oracle as the freshly built expression.
+EXPR_VIEWS = ["expr_json", "expr_json_full", "expr_json_twice", "as_dict_json", "modernize"]
+MODULE_VIEWS = {"module_json_base": False, "module_json_full": True, "module_json_twice": False}   # view -> `full` option of the dump
+ALL_VIEWS = EXPR_VIEWS + list(MODULE_VIEWS)
+# names that `modernize()` is documented to respell (PEP 585 / 604): only there is the modernised text allowed to be another tree
+MODERNIZED_NAMES = {"Union", "Optional", "List", "Dict", "Set", "FrozenSet", "Tuple", "Type", "Deque", "DefaultDict", "OrderedDict",
+                    "Counter", "ChainMap"}
+
+
+def json_roundtrip(obj, full: bool = False):  # noqa: ANN001, ANN201
+    """Public encoder / decoder pair, applied to anything griffe can dump."""
+    import json
+
+    import griffe
+
+    return json.loads(json.dumps(obj, cls=griffe.JSONEncoder, full=full), object_hook=griffe.json_decoder)
+
+
+def reload_module(mod, full: bool):  # noqa: ANN001, ANN201
+    return type(mod).from_json(mod.as_json(full=full))
+
+
+def expression_views(stored):  # noqa: ANN001, ANN201
+    """(view name, names must have a scope?, thunk) for the views that need nothing but the expression itself."""
+    yield "expr_json", False, lambda: json_roundtrip(stored)
+    yield "expr_json_full", False, lambda: json_roundtrip(stored, full=True)
+    yield "expr_json_twice", False, lambda: json_roundtrip(json_roundtrip(stored))
+    if not isinstance(stored, str):
+        yield "as_dict_json", False, lambda: json_roundtrip(stored.as_dict())
+        yield "modernize", True, stored.modernize
+
+
+def walk_expr(e):  # noqa: ANN001, ANN201
+    """Every Expr node of a stored expression (fields of the dataclasses; lists / tuples looked through)."""
+    from dataclasses import fields, is_dataclass
+
+    from _griffe.expressions import Expr, ExprName
+
+    stack = [e]
+    while stack:
+        x = stack.pop()
+        if isinstance(x, (list, tuple)):
+            stack.extend(x)
+        elif isinstance(x, Expr):
+            yield x
+            if isinstance(x, ExprName) or not is_dataclass(x):
+                continue
+            for f in fields(x):
+                if f.name not in ("parent", "function"):
+                    stack.append(getattr(x, f.name, None))
+
+
+def judge_view(expected: ast.expr, stored, view, fresh_text: str, fresh_ok: bool, need_parent: bool, rec, modernized: bool = False):  # noqa: ANN001, ANN201
+    """Judge another view of a stored expression.  None, or (kind, what, observed, expected).
+
+    The CPython oracle decides: text identical to that of the fresh expression has the parse the fresh text has (so only the
+    iteration views and the name elements remain to be checked, or — when the fresh expression is already refuted — nothing
+    new is observed); any other text is parsed and compared with the source tree like a fresh one."""
+    if view is None:
+        return ("view-none", "the view holds nothing although an expression is stored", None, fresh_text)
+    if isinstance(view, str) and not isinstance(stored, str):
+        text, problem, names = view, None, []
+    else:
+        text, problem, names = render_pieces(view)
+    if problem:
+        return ("iteration",) + problem
+    if text == fresh_text:
+        rec.count("view_text_identical_to_fresh")
+        if not fresh_ok:
+            rec.count("view_same_observation_as_refuted_fresh")
+            return None
+        if not isinstance(stored, str):
+            return names_problem(expected, names, need_parent, memo=True)
+        return None
+    rec.count("view_text_differs_from_fresh")
+    if modernized and any((isinstance(n, ast.Name) and n.id in MODERNIZED_NAMES) or (isinstance(n, ast.Attribute) and n.attr in MODERNIZED_NAMES)
+                          for n in ast.walk(expected)):
+        try:  # a documented respelling: the text must still be Python
+            parse_back(text, isinstance(expected, ast.Starred))
+        except (SyntaxError, ValueError, RecursionError, MemoryError) as exc:
+            return ("syntax", f"modernised text is not valid Python ({exc})"[:300], text, fresh_text)
+        rec.count("modernize_respelled_only_syntax_checked")
+        return None
+    if isinstance(view, str) and not isinstance(stored, str):
+        problem = judge(expected, view, None, memo=True)
+        return problem or names_problem(expected, [], need_parent, memo=True)
+    return judge(expected, view, None, memo=True, need_parent=need_parent)
+
+
+VIEW_IDS: list[str] = []
+
+
+def classify_view(name: str, problem, expected, stored):  # noqa: ANN001, ANN201, ARG001
+    """Listed mechanisms for refuted views (D_hostile only): none is known on the pinned tree."""
+    return None
+
+
+def path_views_problem(e):  # noqa: ANN001, ANN201
+    """`path` / `canonical_path` are views of the same tree too: they must produce text for every stored expression."""
+    for attr in ("path", "canonical_path"):
+        try:
+            value = getattr(e, attr)
+        except RecursionError:
+            raise
+        except Exception as exc:  # noqa: BLE001
+            return ("view-exception", f"`{attr}` of the stored expression raised {type(exc).__name__}: {exc}"[:300], None, "a string")
+        if not isinstance(value, str):
+            return ("view-type", f"`{attr}` of the stored expression is not a string", repr(value)[:200], "a string")
+    return None
+
+
+def check_views(expected: ast.expr, stored, fresh_ok: bool, site: str, reloaded: dict, rec, seen: set | None = None):  # noqa: ANN001, ANN201
+    """(view name, problem) of the first view of ``stored`` that is refuted, else None.
+
+    ``seen``: keys of the expressions of this case whose expression-only views were already judged (the same source at the
+    twelve sites gives equal expression trees per expected tree; the module views differ per site and are judged at each)."""
+    from _griffe.expressions import Expr, ExprParameter
+
+    fresh_text = stored if isinstance(stored, str) else str(stored)
+    key = (fresh_text, id(expected), type(stored).__name__)
+    if seen is not None and key in seen:
+        candidates = []
+        rec.count("expression_only_views_shared_with_equal_expression_of_the_case")
+    else:
+        candidates = list(expression_views(stored))
+        if seen is not None:
+            seen.add(key)
+    for label, rmod in reloaded.items():
+        if not isinstance(rmod, Exception):
+            candidates.append((label, True, lambda rmod=rmod: fetch(rmod, site)))
+    for name, need_parent, thunk in candidates:
+        try:
+            view = thunk()
+        except RecursionError:
+            raise
+        except Exception as exc:  # noqa: BLE001
+            return name, ("view-exception", f"obtaining the view raised {type(exc).__name__}: {exc}"[:300], None, fresh_text)
+        try:
+            problem = judge_view(expected, stored, view, fresh_text, fresh_ok, need_parent, rec, modernized=name == "modernize")
+        except RecursionError:
+            raise
+        except Exception as exc:  # noqa: BLE001
+            problem = ("view-exception", f"rendering the view raised {type(exc).__name__}: {exc}"[:300], None, fresh_text)
+        if problem:
+            return name, problem
+        # (a view of an expression that is itself refuted only shows the same observation again: counted apart)
+        rec.count(f"view_checked[{name}]" if fresh_ok else f"view_of_refuted_fresh_expression[{name}]")
+        if isinstance(view, Expr):
+            if name in ("module_json_base", "module_json_full", "modernize"):
+                problem = path_views_problem(view)
+                if problem:
+                    return name, problem
+                rec.count("path_views_checked")
+            if name == "module_json_base":
+                for x in walk_expr(view):
+                    rec.add_to_set("expr_classes_in_reloaded_views", type(x).__name__)
+                    if isinstance(x, ExprParameter):
+                        rec.add_to_set("parameter_kinds_in_reloaded_views", str(getattr(x.kind, "value", x.kind)))
+    if isinstance(stored, Expr):
+        problem = path_views_problem(stored)
+        if problem:
+            return "fresh", problem
+        rec.count("path_views_checked")
+    return None
 
 
 # ---------------------------------------------------------------------------------------------------------------
@@ -740,13 +939,17 @@ def build_module(src: str, future, sites, starred: bool) -> str:  # noqa: ANN001
         lines.append(f"@{e}\ndef g(): ...")
     if "class_decorator" in sites:
         lines.append(f"@{e}\nclass D: ...")
-    if {"base", "class_value", "class_annotation"} & set(sites):
+    if {"base", "class_value", "class_annotation", "method_default", "instance_value"} & set(sites):
         lines.append(f"class C({e}):" if "base" in sites else "class C:")
         body = []
         if "class_value" in sites:
             body.append(f"    cv_site = {e}")
         if "class_annotation" in sites:
             body.append(f"    ca_site: {e}")
+        if "method_default" in sites:
+            body.append(f"    def meth(self, mp_default={e}): ...")
+        if "instance_value" in sites:
+            body.append(f"    def __init__(self):\n        self.iv_site = {e}")
         lines.extend(body or ["    ..."])
     return "\n".join(lines) + "\n"
 
@@ -776,6 +979,10 @@ def fetch(mod, site: str):  # noqa: ANN001, ANN201
         return m["C"].members["cv_site"].value
     if site == "class_annotation":
         return m["C"].members["ca_site"].annotation
+    if site == "method_default":
+        return m["C"].members["meth"].parameters["mp_default"].default
+    if site == "instance_value":
+        return m["C"].members["iv_site"].value
     raise KeyError(site)
 
 
@@ -797,8 +1004,8 @@ def coverage(ref: ast.expr, rec) -> tuple[int, int]:  # noqa: ANN001
     return tree_depth(ref), len(classes)
 
 
-def run_case(rec, src: str, future, domain: str, sites=None, workload: str = "grammar") -> None:  # noqa: ANN001, C901, PLR0912, PLR0915
-    """Judge one source expression at the given sites (default: all)."""
+def run_case(rec, src: str, future, domain: str, sites=None, workload: str = "grammar", views: bool = True) -> None:  # noqa: ANN001, C901, PLR0912, PLR0915
+    """Judge one source expression at the given sites (default: all); ``views``: also through every other view of it."""
     host_module()
     try:
         ref = parse_expr_text(src)
@@ -846,7 +1053,26 @@ def run_case(rec, src: str, future, domain: str, sites=None, workload: str = "gr
         return
     in_effect = future_in_effect(future)
     detected = bool(mod.imports_future_annotations)
-    problems: dict = {}   # finding id or None -> (site, problem)
+    problems: dict = {}   # finding id or None (fresh expression) / ("view", finding id or None) -> (site, problem, tried)
+    seen_views: set = set()
+    reloaded: dict = {}   # view -> module decoded from the dump of `mod` (or the exception that prevented it)
+    if views:
+        rec.count("cases_judged_through_all_views")
+    for label, full in MODULE_VIEWS.items() if views else ():
+        try:
+            with case_watchdog(60):
+                reloaded[label] = reload_module(mod, full)
+                if label == "module_json_twice":  # a decoded tree is dumped and decoded again
+                    reloaded[label] = reload_module(reloaded[label], full)
+            rec.count("module_reloads")
+        except RecursionError:
+            raise
+        except Exception as exc:  # noqa: BLE001
+            reloaded[label] = exc
+            vproblem = ("view-exception", f"view {label}: dumping and reloading the visited module raised {type(exc).__name__}: {exc}"[:300],
+                        None, "a module")
+            vfid = None if domain == "clean" else classify_view(label, vproblem, None, None)
+            problems.setdefault(("view", vfid), ("*", vproblem, list(VIEW_IDS)))
     cache: dict = {}      # tree identity -> [text rendered alone, explanation]
 
     def alone(tree: ast.expr) -> list:
@@ -878,6 +1104,12 @@ def run_case(rec, src: str, future, domain: str, sites=None, workload: str = "gr
             problem = ("none", "nothing stored for an expression made of supported nodes only", None, _unparse(expected))
         else:
             problem = judge(expected, stored, rec, memo=True)
+            refuted_view = check_views(expected, stored, problem is None, site, reloaded, rec, seen_views) if views else None
+            if refuted_view:
+                vname, vproblem = refuted_view
+                vfid = None if domain == "clean" else classify_view(vname, vproblem, expected, stored)
+                vproblem = (vproblem[0], f"view {vname}: {vproblem[1]}", vproblem[2], vproblem[3])
+                problems.setdefault(("view", vfid), (site, vproblem, list(VIEW_IDS)))
         if problem is None:
             if info.plain or info.in_literal:
                 cell = f"strings[future={int(in_effect)},site={site}]"
@@ -934,7 +1166,8 @@ def run_case(rec, src: str, future, domain: str, sites=None, workload: str = "gr
         tags = [f"domain:{domain}", f"workload:{workload}", f"future:{future}"]
         rec.ok(case_all, nontrivial=nontrivial, tags=tags, dig=digest(f"{src}|{future}"))
         return
-    for fid, (site, problem, tried) in problems.items():
+    for key, (site, problem, tried) in problems.items():
+        fid = key[1] if isinstance(key, tuple) else key
         case = {"site": site, "source": src, "future": future, "domain": domain}
         rec.fail(case, f"[{site}] {problem[1]}", observed=problem[2], expected=problem[3], finding=fid, nontrivial=nontrivial,
                  tags=(f"domain:{domain}", f"refuted:{problem[0]}"), tried=tried)
@@ -947,11 +1180,15 @@ def shards(tier: str, seed: int) -> list[dict]:
         n_gen, n_str, depth = 400, 300, 3
     else:
         n_gen, n_str, depth = 20000, 15000, 5
+    # the other views of each stored expression (JSON round trips, ...) cost about three times the fresh judgement: every case in
+    # the quick tier, every fourth case (by index) in the thorough tier — still 12 times the quick tier's number
+    every = 1 if tier == "quick" else 4
     out = []
     for i in range(12):
-        out.append({"kind": "grammar", "domain": "clean" if i % 2 == 0 else "hostile", "count": n_gen, "depth": depth})
+        out.append({"kind": "grammar", "domain": "clean" if i % 2 == 0 else "hostile", "count": n_gen, "depth": depth, "views_every": every})
     for i in range(4):
-        out.append({"kind": "strings", "domain": "clean" if i % 2 == 0 else "hostile", "count": n_str, "depth": 3 if tier == "quick" else 4})
+        out.append({"kind": "strings", "domain": "clean" if i % 2 == 0 else "hostile", "count": n_str, "depth": 3 if tier == "quick" else 4,
+                    "views_every": every})
     return out
 
 
@@ -972,6 +1209,7 @@ def gen_source(tree: ast.expr):  # noqa: ANN201
 def run_shard(spec: dict, rec) -> None:  # noqa: ANN001
     rng = random.Random(spec["seed"])
     clean = spec["domain"] == "clean"
+    every = max(1, int(spec.get("views_every", 1)))
     host_module()
     for b in BINOPS + UNARYOPS + BOOLOPS + CMPOPS:
         rec.add_to_set("operators_in_grammar", b.__name__)
@@ -982,7 +1220,7 @@ def run_shard(spec: dict, rec) -> None:  # noqa: ANN001
         for fid in sorted(fixed):
             rec.note(f"D_clean widened: trigger of fixed finding {fid} is generated in the clean domain")
         gen = ExprGen(rng, clean=clean, fixed=fixed)
-        for _ in range(spec["count"]):
+        for index in range(spec["count"]):
             depth = rng.randint(1, spec["depth"])
             src = gen_source(gen.top(depth))
             if src is None:
@@ -997,9 +1235,9 @@ def run_shard(spec: dict, rec) -> None:  # noqa: ANN001
             f2 = forced_future(info, future)
             if f2 is not future:
                 rec.count("future_forced_on_for_unspecified_string_position")
-            run_case(rec, src, f2, spec["domain"], workload="grammar")
+            run_case(rec, src, f2, spec["domain"], workload="grammar", views=index % every == 0)
     else:
-        for _ in range(spec["count"]):
+        for index in range(spec["count"]):
             gen = StringAnnGen(rng, clean=clean)
             src = gen_source(gen.typ(rng.randint(1, spec["depth"])))
             if src is None:
@@ -1015,7 +1253,7 @@ def run_shard(spec: dict, rec) -> None:  # noqa: ANN001
             f2 = forced_future(info, future)
             if f2 is not future:
                 rec.count("future_forced_on_for_unspecified_string_position")
-            run_case(rec, src, f2, spec["domain"], workload="strings")
+            run_case(rec, src, f2, spec["domain"], workload="strings", views=index % every == 0)
 
 
 def run_replay(inp: dict, rec) -> None:  # noqa: ANN001
